@@ -33,6 +33,7 @@ type Prop struct {
 	Race         bool                     // worker must be the -race binary
 	Tool         string                   // worker is the tool harness test binary of this name ("" = vsim itself)
 	FatalIsViol  bool                     // a reproducible worker death is a violation of this property
+	Attempts     int                      // replay/minimisation re-execute a tape up to this many times until the violation shows (race reports are a sound but probabilistic sensor); 0 = 1
 	FatalNoClaim bool                     // a reproducible worker death means "the tool did not succeed": counted, nothing demanded
 	WantFaults   []string                 // fault kinds a thorough run is expected to fire (reach self-check)
 	WantProbes   []string
@@ -130,6 +131,25 @@ func Execute(p *Prop, idx int, t *Tape, kf *KnownFindings, trace bool) (res RunR
 	}()
 	p.Run(r)
 	return
+}
+
+// ExecuteRetry re-executes the same tape up to p.Attempts times and returns the first execution that violates
+// (or the last one). Used for replay and minimisation only. A violation can never be manufactured by repetition;
+// repetition only compensates for sensors that may miss (the race detector loses a report when some runtime-internal
+// synchronisation happens to order the two goroutines).
+func ExecuteRetry(p *Prop, idx int, tape []uint32, kf *KnownFindings, trace bool) RunResult {
+	n := p.Attempts
+	if n < 1 {
+		n = 1
+	}
+	var res RunResult
+	for i := 0; i < n; i++ {
+		res = Execute(p, idx, ReplayTape(tape), kf, trace)
+		if res.Abort != "" || len(res.Run.Viol) > 0 {
+			return res
+		}
+	}
+	return res
 }
 
 // wire messages worker -> coordinator
@@ -260,8 +280,7 @@ func WorkerMain(propID string, seed uint64) int {
 			}
 			if len(r.Viol) > 0 {
 				// re-execute the recorded tape with tracing on: gives the trace and proves replayability
-				t2 := ReplayTape(append([]uint32(nil), t.Recorded()...))
-				res2 := Execute(p, idx, t2, kf, true)
+				res2 := ExecuteRetry(p, idx, append([]uint32(nil), t.Recorded()...), kf, true)
 				det := len(res2.Run.Viol) > 0 && res2.Run.Viol[0].Class == r.Viol[0].Class
 				emit("V", wireViol{idx, r.Viol[0], t.Recorded(), res2.Run.Trace, det})
 			} else if len(b.Samples) < 1 && (idx%64 == 0 || idx == from) && r.NonTriv {
@@ -331,7 +350,12 @@ func ReplayMain(path string) int {
 	// open known findings other than the recorded one are applied as in the original run
 	kf, _ := LoadKnown(VerifDir() + "/known_findings.json")
 	kf = kf.Without(p.ID, rf.Violation)
-	res := Execute(p, rf.RunIndex, t, kf, true)
+	var res RunResult
+	if rf.Tape == nil && rf.Kind != "" {
+		res = Execute(p, rf.RunIndex, t, kf, true)
+	} else {
+		res = ExecuteRetry(p, rf.RunIndex, rf.Tape, kf, true)
+	}
 	for _, ln := range res.Run.Trace {
 		fmt.Fprintln(Out, "  "+ln)
 	}
